@@ -617,7 +617,8 @@ def cases_c03(rng, thorough):
             cases.append(mux_case([k], G.key_stream(0, G.ints(xs))))
             cases.append(src_case([k], G.ints(xs)))
     for _ in range(1200 if thorough else 300):
-        pipe, _k = G.gen_pipe(rng, 'int', rng.choice([1, 2, 3]), rng.choice([1, 2, 3]))
+        pipe, _k = G.gen_pipe(rng, 'int', rng.choice([1, 2, 3]), rng.choice([1, 2, 3]),
+                              allow_err=rng.random() < 0.3)
         lts = rand_lifetimes(rng, rng.choice([1, 2, 3]), 7, vals=range(5), reuse=0.4)
         if rng.random() < 0.25:
             cases.append(src_case(pipe, G.ints([rng.randint(0, 4)
